@@ -87,7 +87,7 @@ class Obj:
         self.fields = dict(fields or {})
 
 
-IMMUTABLE_CLASSES = {"ImmutableKnotVector", "AbsKnotVector"}     # value objects: shared between forked states, identity is meaningful
+IMMUTABLE_CLASSES = {"ImmutableKnotVector", "AbsKnotVector", "AbsSet"}     # value objects: shared between forked states, identity is meaningful
 
 
 class Const:
@@ -721,6 +721,71 @@ class Engine:
             else:
                 raise Unsupported("havoc of %s : %r" % (nme, v))
 
+    # ---- objects in loops -------------------------------------------------------------------------
+    @staticmethod
+    def kind_of(v):
+        if isinstance(v, Num):
+            return "num"
+        if isinstance(v, Obj):
+            return "obj:" + v.cls
+        return type(v).__name__
+
+    LIST_METHODS = {"append", "extend", "pop", "insert", "remove", "sort", "index", "count", "reverse"}
+
+    @classmethod
+    def may_mutate_objects(cls, body, env):
+        """The loop body stores to an attribute, or calls a method on a name that is (or may be) bound to an object: conservative trigger for
+        the havoc of object fields.  Methods of sequences (receiver bound to a sequence value, or a list method on a loop-local name) do not count."""
+        for stmt in body:
+            for n in ast.walk(stmt):
+                if isinstance(n, (ast.Assign, ast.AugAssign, ast.AnnAssign)):
+                    tgts = n.targets if isinstance(n, ast.Assign) else [n.target]
+                    if any(isinstance(t, ast.Attribute) for t in tgts):
+                        return True
+                if isinstance(n, ast.Call) and isinstance(n.func, ast.Attribute) and isinstance(n.func.value, ast.Name):
+                    recv = env.get(n.func.value.id)
+                    if isinstance(recv, Obj) and recv.cls not in IMMUTABLE_CLASSES:
+                        return True
+                    if recv is None and n.func.attr not in cls.LIST_METHODS:
+                        return True
+        return False
+
+    def havoc_value(self, v, tag, st):
+        if isinstance(v, Num):
+            return Num(fresh_int(tag) if v.is_int else fresh_real(tag), v.is_int)
+        if isinstance(v, BoolV):
+            return BoolV(fresh(tag, z3.BoolSort()))
+        if isinstance(v, Seq):
+            s = fresh_seq(tag)
+            s.is_list = v.is_list
+            st.assume(s.n >= 0)
+            return s
+        if isinstance(v, Obj):
+            return Obj(v.cls, {k: self.havoc_value(x, tag + "_" + k.strip("_"), st) for k, x in v.fields.items()})
+        return v
+
+    def havoc_objects(self, st):
+        """An arbitrary iteration may have changed any field of any mutable object: every field gets an arbitrary value of the SAME kind
+        (kind stability is checked after the body); what is known about them must come from the loop invariant."""
+        for nme, v in list(st.env.items()):
+            if isinstance(v, Obj) and v.cls not in IMMUTABLE_CLASSES:
+                for k, x in list(v.fields.items()):
+                    v.fields[k] = self.havoc_value(x, "%s_%s" % (nme, k.strip("_")), st)
+
+    def check_kinds(self, head, end, modified, objects, node):
+        for nme in modified:
+            a, b = head.env.get(nme), end.env.get(nme)
+            if a is not None and b is not None and self.kind_of(a) != self.kind_of(b):
+                raise Unsupported("variable %s changes kind in the loop at L%d (%s -> %s)" % (nme, node.lineno, self.kind_of(a), self.kind_of(b)))
+        if objects:
+            for nme, v in head.env.items():
+                w = end.env.get(nme)
+                if isinstance(v, Obj) and isinstance(w, Obj) and v.cls not in IMMUTABLE_CLASSES:
+                    for k, x in v.fields.items():
+                        y = w.fields.get(k)
+                        if y is not None and self.kind_of(x) != self.kind_of(y):
+                            raise Unsupported("field %s.%s changes kind in the loop at L%d (%s -> %s)" % (nme, k, node.lineno, self.kind_of(x), self.kind_of(y)))
+
     def widen(self, st, modified, guard_fn, pre_body, post_body, body):
         saved = (len(self.vcs), self.loop_ord, list(getattr(self, "_break_stack", [])), list(getattr(self, "pending_exc", [])),
                  list(self.notes))
@@ -765,6 +830,10 @@ class Engine:
         # 2. arbitrary iteration (variables that turn from int into exact numbers in the body are havocked as reals)
         self.widen(st, modified, guard_fn, pre_body, post_body, body)
         self.havoc(st, modified)
+        objects = self.may_mutate_objects(body, st.env)
+        if objects:
+            self.havoc_objects(st)
+        head = st.copy()
         for e in inv:
             st.assume(self.spec_bool(e, st))
         g = guard_fn(st)
@@ -783,6 +852,7 @@ class Engine:
             ends = self.exec_block(body, sb, exits)
             self._break_stack.pop()
             for s in ends + [s for s in getattr(self, "_continue_states", [])]:
+                self.check_kinds(head, s, modified, objects, node)
                 post_body(s)
                 for i, e in enumerate(inv):
                     self.vc(s, self.spec_bool(e, s), "%s:preserved:%d@L%d" % (tag, i, node.lineno), node.lineno)
